@@ -63,7 +63,7 @@ theorem mockKinds_genTraitDef (opts : Opts) (ind depMode subAttrs vis ident tg s
     mockKinds (genTraitDef opts ind depMode subAttrs vis ident tg sup fns mode) =
       (if opts.unimockValue && !(ind == .plain && opts.mockApi.isNone) then [(.unimock, !opts.exportValue)] else []) ++
       (if opts.mockallValue then [(.automock, !opts.exportValue)] else []) ++
-      (reappliedSubs subAttrs).filterMap Attr.mockKind := by
+      (reappliedSubs mode subAttrs).filterMap Attr.mockKind := by
   unfold mockKinds genTraitDef
   simp only [List.filterMap_append, unimockAttr_kinds, entraitAttr_kinds, mockallAttr_kinds, List.append_nil]
 
@@ -119,10 +119,15 @@ theorem mockKinds_no_mock (opts : Opts) (ho : opts.unimockValue = false) (hm : o
     (subs : List Attr) (hs : ∀ a ∈ subs, a.subKind = .asyncTrait) (ind depMode vis ident tg sup fns mode) :
     mockKinds (genTraitDef opts ind depMode subs vis ident tg sup fns mode) = [] := by
   rw [mockKinds_genTraitDef]
-  have : (reappliedSubs subs).filterMap Attr.mockKind = [] := by
+  have : (reappliedSubs mode subs).filterMap Attr.mockKind = [] := by
     rw [List.filterMap_eq_nil_iff]
     intro a ha
-    exact asyncTrait_not_mock a (hs a (List.mem_filter.mp ha).1)
+    apply asyncTrait_not_mock a
+    apply hs
+    unfold reappliedSubs at ha
+    split at ha
+    · exact ha
+    · exact (List.mem_filter.mp ha).1
   simp [ho, hm, this]
 
 theorem T_C10 (v : Variant) (attr : Toks) (item : Item) (out : Out)
